@@ -113,7 +113,7 @@ def r2(ctx, R):
         cfg = FuncCFG(fn)
         init = _assigns(fn, 'time')
         t0 = fn.args.args[2].arg
-        ok = len(init) == 1 and ast.unparse(init[0].value) == f'[{t0} + sum((self.MS[j].dt for j in range(p))) for p in slots]'
+        ok = len(init) == 1 and time_table_ok(fn, cn, t0)
         R.check(ok, f'{cn}.run :: initial times are t0 + sum of the preceding step sizes', w, f'[{t0} + sum(self.MS[j].dt for j in range(p)) for p in slots]', [ast.unparse(s.value) for s in init])
         first = [s for s in walk_no_nested(fn) if isinstance(s, ast.Assign) and ast.unparse(s.targets[0]) == 'time[active_slots[0]]']
         got = sorted((ast.unparse(s.value), facts.guard_strings(cfg, s)[-1]) for s in first)
@@ -457,3 +457,39 @@ def r13(ctx, R):
 def r14(ctx, R):
     from . import c15
     c15.r9(ctx, R)
+
+def time_table_ok(fn, cn, t0='t0'):
+    """the initial time table of run(): one list comprehension over `slots` whose element is t0 + sum(self.MS[j].dt for j in range(p));
+    index names are free; another idiom altogether is outside the vocabulary (exit 2), not a violation"""
+    tv = [s.value for s in fn.body if isinstance(s, ast.Assign) and len(s.targets) == 1 and isinstance(s.targets[0], ast.Name) and s.targets[0].id == 'time']
+    lc = tv[0] if len(tv) == 1 else None
+    if not (isinstance(lc, ast.ListComp) and len(lc.generators) == 1 and isinstance(lc.elt, ast.BinOp) and isinstance(lc.elt.op, ast.Add)):
+        raise AnalysisError(f'{cn}.run: the time table is no longer one list comprehension `t0 + sum(..)` - re-confirm C06.R2 against the new idiom')
+    g = lc.generators[0]
+    sides = [lc.elt.left, lc.elt.right]
+    sums = [x for x in sides if isinstance(x, ast.Call) and ast.unparse(x.func) in ('sum', 'np.sum') and x.args and isinstance(x.args[0], (ast.GeneratorExp, ast.ListComp))]
+    rest = [ast.unparse(x) for x in sides if x not in sums]
+    ok = ast.unparse(g.iter) == 'slots' and isinstance(g.target, ast.Name) and not g.ifs and rest == [t0] and len(sums) == 1
+    if ok:
+        ig = sums[0].args[0]
+        q = ig.generators[0]
+        ok = len(ig.generators) == 1 and not q.ifs and isinstance(q.target, ast.Name) and ast.unparse(q.iter) in (f'range({g.target.id})', f'range(0, {g.target.id})') and ast.unparse(ig.elt) == f'self.MS[{q.target.id}].dt'
+    return ok
+
+
+@rule('C06', 'C06.R15', 'the first block starts at t0 and uses every step: in run() of the serial controllers `num_procs = len(self.MS)`, `slots = list(range(num_procs))` (all steps, from 0; the time table itself is C06.R2) - a slot list that starts at 1 leaves a gap or an overlap in the tiling of [t0, Tend]', floor=4)
+def r15(ctx, R):
+    repo = ctx.repo
+    CCD = 'pySDC/implementations/controller_classes/'
+    for rel, cn in ((CCD + 'controller_nonMPI.py', 'controller_nonMPI'), (CCD + 'controller_ParaDiag_nonMPI.py', 'controller_ParaDiag_nonMPI')):
+        fn = repo.func(rel, f'{cn}.run')
+        w = f'{rel}:{cn}.run'
+        R.fn(w)
+        st = {}
+        for s in fn.body:
+            if isinstance(s, ast.Assign) and len(s.targets) == 1 and isinstance(s.targets[0], ast.Name):
+                st.setdefault(s.targets[0].id, []).append(ast.unparse(s.value))
+        if not {'num_procs', 'slots', 'time'} <= set(st):
+            raise AnalysisError(f'{cn}.run: num_procs / slots / time are no longer assigned at the top level - re-confirm C06.R15')
+        R.check(st['num_procs'] == ['len(self.MS)'], f'{cn}.run :: the block has as many slots as the controller has steps', w, 'num_procs = len(self.MS)', st['num_procs'])
+        R.check(st['slots'] in (['list(range(num_procs))'], ['list(range(0, num_procs))'], ['list(range(len(self.MS)))']), f'{cn}.run :: slots are ALL steps 0..num_procs-1', w, 'slots = list(range(num_procs))', st['slots'])
